@@ -160,6 +160,8 @@ def replay_behaviours(runner, cfg, frames, behaviours, tier, r):
     hs = sorted(behaviours.keys(), key=lambda h: (len(h), h))
     if tier == "quick" and len(hs) > 40:
         hs = hs[:10] + r.sample(hs[10:], 30)
+    elif tier != "quick" and len(hs) > 500:
+        hs = hs[:100] + r.sample(hs[100:], 400)
     for h in hs:
         s = runner.session(cfg, "replay of model behaviour %s" % (list(h),))
         s.send([frames[i - 1] for i in h])
